@@ -133,7 +133,7 @@ def writeCore (m : VLog) (k : Bytes) (v : Option Bytes) (ops : List Nat) : VLog 
 
 def write (m : VLog) (k : Bytes) (v : Option Bytes) (ops : List Nat) : VLog × Out :=
   if k.length > Gen.MemLimits.maxKeyLen then (m, .err .keyTooLarge)
-  else if (match v with | some x => decide (k.length + x.length > m.entryLimit) | none => false) then (m, .err .entryTooLarge)
+  else if Spec.entryTooLarge k v m.entryLimit then (m, .err .entryTooLarge)
   else
     let m' := m.writeCore k v ops
     if v.isSome && decide (m'.size > (m.bufLimit : Int)) then (m', .err .txnTooLarge) else (m', .ok)
